@@ -346,16 +346,17 @@ class Summaries:
         ref_params = {p["d"] for p in fn.params if p.get("ref") and not p.get("const_ref")}
         ptr_params = {p["d"] for p in fn.params if p.get("ct", "").endswith("*") and "const" not in p.get("ct", "").split("*")[0]}
 
-        def root_item(t):
-            # map an lvalue term to a write item
+        def root_item(t, elem=False):
+            # map an lvalue term to a write item; "@" marks element-only writes (the container's size is untouched)
             while True:
                 if t[0] == "mem":
                     if t[1] == ("this",):
-                        return ("this", t[2])
+                        return ("this@" if elem else "this", t[2])
                     t = t[1]
                     continue
                 if t[0] == "idx":
                     t = t[1]
+                    elem = True
                     continue
                 if t[0] == "un" and t[1] == "*":
                     t = t[2]
@@ -364,12 +365,13 @@ class Summaries:
                     # element access through an accessor (v.data(), v.at()); any other call result is a temporary
                     if t[1].split("::")[-1] in ACCESSORS:
                         t = t[2]
+                        elem = True
                         continue
                     return None
                 break
             if t[0] == "var":
                 if t[2] in pidx and (t[2] in ref_params or t[2] in ptr_params):
-                    return ("param", pidx[t[2]])
+                    return ("param@" if elem else "param", pidx[t[2]])
                 return None
             if t[0] == "global":
                 return ("global", t[1])
@@ -418,7 +420,7 @@ class Summaries:
         if callees:
             for cal in callees:
                 for it in self.writes(cal):
-                    if it[0] == "this":
+                    if it[0] in ("this", "this@"):
                         if obj_t is None:
                             continue
                         if obj_t == ("this",) or (obj_t[0] == "un" and obj_t[2] == ("this",)):
@@ -427,9 +429,9 @@ class Summaries:
                             r = root_item(obj_t)
                             if r:
                                 out.add(r)
-                    elif it[0] == "param":
+                    elif it[0] in ("param", "param@"):
                         if it[1] < len(rest):
-                            r = root_item(fn.term(rest[it[1]]))
+                            r = root_item(fn.term(rest[it[1]]), it[0] == "param@")
                             if r:
                                 out.add(r)
                     elif it[0] == "global":
@@ -649,6 +651,8 @@ class Engine:
                 facts = facts | {norm_cmp("==", ("size", obj_t), fn.term(rest[0]))}
             elif name == "clear":
                 facts = facts | {norm_cmp("==", ("size", obj_t), ("const", 0))}
+            elif name in ("push_back", "emplace_back"):
+                facts = facts | {("<", ("const", 0), ("size", obj_t))}
         if k == "CXXOperatorCallExpr" and nd.get("op") == "=" and len(args) == 2:
             lt = fn.term(args[0])
             facts = self._kill(facts, lt)
@@ -676,12 +680,49 @@ class Engine:
     def _mk_root_item(self, fn):
         pidx = {p["d"]: i for i, p in enumerate(fn.params)}
 
-        def root_item(t):
+        def root_item(t, elem=False):
             # in the dataflow we kill by *term*, so return the term itself wrapped
-            return ("term", t)
+            x = t
+            while True:
+                if x[0] == "idx" or (x[0] == "call" and x[2] is not None and x[1].split("::")[-1] in ACCESSORS):
+                    elem = True
+                    x = x[1] if x[0] == "idx" else x[2]
+                    continue
+                if x[0] == "mem" and x[1] != ("this",):
+                    x = x[1]
+                    continue
+                if x[0] == "un" and x[1] in ("*", "&"):
+                    x = x[2]
+                    continue
+                break
+            return ("term@" if elem else "term", t)
         return root_item
 
+    def _kill_elems(self, facts, root):
+        """An element of container `root` was written: facts about its size survive."""
+        out = set()
+        ph = ("SIZEOF", "x")
+        for f in facts:
+            if f[0] == "ev":
+                out.add(f)
+                continue
+            g = substitute(f, {("size", root): ph})
+            if mentions(g, root):
+                continue
+            out.add(f)
+        return out
+
     def _kill_item_general(self, fn, facts, it):
+        if it[0] == "term@":
+            root = self._root_var(it[1])
+            if root == ("this",) or root == ("temporary",):
+                return facts if root == ("temporary",) else {f for f in facts if f[0] == "ev" or not mentions(f, ("this",))}
+            return self._kill_elems(facts, root)
+        if it[0] in ("this@", "param@"):
+            if it[0] == "this@":
+                return self._kill_elems(facts, ("mem", ("this",), it[1]))
+            p = fn.params[it[1]]
+            return self._kill_elems(facts, ("var", p["n"], p["d"]))
         if it[0] == "term":
             t = it[1]
             # strip to the root object that is being modified
@@ -743,6 +784,15 @@ class Engine:
                     inv[("var", p["n"], p["d"])] = at
         pvars = set(inv.keys())
         out = set()
+        # re-express callee locals through the members they were stored to (m_Count = localCount)
+        tomem = {}
+        for f in ex:
+            if f[0] == "==":
+                for (x, y) in ((f[1], f[2]), (f[2], f[1])):
+                    if x[0] == "var" and x not in pvars and y[0] == "mem" and y[1] == ("this",):
+                        tomem.setdefault(x, y)
+        if tomem:
+            ex = set(ex) | {substitute(f, tomem) for f in ex if f[0] in ("<", "<=", "==", "!=")}
         for f in ex:
             if f[0] == "ev":
                 out.add(f)
@@ -795,10 +845,12 @@ class Engine:
                 ps = [p for p in g.pred[b] if p in g.reach and (p, b) in edge_out]
                 if not ps:
                     continue
-                new_in = None
-                for p in ps:
-                    s = edge_out[(p, b)]
-                    new_in = set(s) if new_in is None else (new_in & s)
+                new_in = self._merge([edge_out[(p, b)] for p in ps])
+                if b in loops:
+                    inv = self._counting_loop_invariant(fn, g, b, loops[b],
+                                                        [edge_out[(p, b)] for p in ps if p not in loops[b]])
+                    if inv:
+                        new_in |= inv
                 if b in IN and IN[b] == new_in and b in OUT:
                     continue
                 IN[b] = new_in
@@ -847,6 +899,99 @@ class Engine:
         self.memo[key] = res
         self.stack.pop()
         return res
+
+    def _merge(self, sets):
+        """Must-merge of predecessor fact sets. Syntactic intersection, plus comparison facts of one
+        predecessor that every other predecessor *entails* (and equalities weakened to <=)."""
+        if len(sets) == 1:
+            return set(sets[0])
+        from .prove import prove_fact
+        common = set(sets[0])
+        for s in sets[1:]:
+            common &= s
+        cand = set()
+        for s in sets:
+            for f in s:
+                if f in common or f[0] not in ("<", "<=", "=="):
+                    continue
+                cand.add(f)
+                if f[0] == "==":
+                    cand.add(("<=", f[1], f[2]))
+                    cand.add(("<=", f[2], f[1]))
+        for f in cand:
+            if f in common:
+                continue
+            if all((f in s) or prove_fact(s, f) for s in sets):
+                common.add(f)
+        return common
+
+    def _counting_loop_invariant(self, fn, g, header, body, entry_sets):
+        """Canonical counting loop `for (…; v < N; ++v)`: v <= N is an invariant if it holds on entry, the only
+        stores to v inside the loop are increments by one executed under v < N, and N is not written in the loop."""
+        from .prove import prove_le
+        cid = g.branch_cond(header)
+        if cid is None or not entry_sets:
+            return None
+        cf = cond_facts(fn, cid, True)
+        if len(cf) != 1:
+            return None
+        f = next(iter(cf))
+        if f[0] != "<":
+            return None
+        v, N = f[1], f[2]
+        if v[0] != "var":
+            return None
+        # the true edge must lead into the loop body
+        tsucc = [t for (t, l) in g.succ[header] if l is True]
+        if not tsucc or tsucc[0] not in body:
+            return None
+        for b in body:
+            for e in g.blocks[b]["elems"]:
+                if not isinstance(e, int):
+                    continue
+                nd = fn.n(e)
+                k = nd["k"]
+                if k == "UnaryOperator" and nd.get("op") in ("++", "--"):
+                    t = fn.term(fn.kids(e)[0])
+                    if t == v and nd["op"] == "++":
+                        if b == header:
+                            return None
+                        continue
+                    if t == v or mentions(N, t):
+                        return None
+                elif k in ("BinaryOperator", "CompoundAssignOperator") and nd.get("op", "").endswith("=") \
+                        and nd["op"] not in ("==", "!=", "<=", ">="):
+                    t = fn.term(fn.kids(e)[0])
+                    if t == v or mentions(N, self._root_var(t)) or mentions(N, t):
+                        return None
+                elif k == "DeclStmt":
+                    for d in nd.get("decls", []):
+                        if ("var", d.get("n"), d.get("d")) == v:
+                            return None
+                elif k in CALLS or k in CTORS:
+                    for it in self.S.call_writes(fn, nd, self._mk_root_item(fn)):
+                        if it[0] in ("term", "term@"):
+                            r = self._root_var(it[1])
+                            if r == v or (mentions(N, r) and not (it[0] == "term@" and N == ("size", r))):
+                                return None
+                        elif it[0] == "this" and mentions(N, ("this",)):
+                            return None
+        # every increment of v must be dominated by the header's true edge: increments sit in the body, and every
+        # path into the body passes the header condition (natural loop), so v < N held when the iteration began;
+        # a second increment in one iteration would break the induction
+        incs = 0
+        for b in body:
+            for e in g.blocks[b]["elems"]:
+                if isinstance(e, int):
+                    nd = fn.n(e)
+                    if nd["k"] == "UnaryOperator" and nd.get("op") == "++" and fn.term(fn.kids(e)[0]) == v:
+                        incs += 1
+        if incs != 1:
+            return None
+        for s in entry_sets:
+            if not prove_le(s, v, N):
+                return None
+        return {("<=", v, N)}
 
     def _throws_only(self, g, b, seen=None):
         """Block b leads to a throw on every path without passing a branch (a refusal arm)."""
